@@ -65,11 +65,15 @@ impl World {
         for v in by_site.values_mut() {
             v.sort_by_key(|i| (info[*i].steps, *i));
         }
-        // sweep pool: quick = comments on, option sets own/all; thorough = everything
+        // sweep pool: quick = comments on, option set own (plus all for the fixtures and workload/state); thorough = everything
         let sweep: Vec<usize> = pool
             .iter()
             .copied()
-            .filter(|&i| thorough || (tasks[i].comments && (tasks[i].opt_name == "own" || tasks[i].opt_name == "all")))
+            .filter(|&i| {
+                thorough
+                    || (tasks[i].comments
+                        && (tasks[i].opt_name == "own" || (tasks[i].opt_name == "all" && !tasks[i].name.starts_with("w2/grid/") && !tasks[i].script)))
+            })
             .collect();
         // probes: a few feature-rich modules used as the bystander `u`
         let mut probes: Vec<usize> = vec![];
